@@ -58,6 +58,7 @@ EXTRA_SRC = {
     "x_s9": "'123456789'", "x_sinf": "'inf'", "x_dhuge": "1000000000000000000000.0 * 1000000000000000000000.0",
     "x_objproto": "<*_proto_ = 1*>", "x_objnullproto": "<*_proto_ = NULL, a = 1*>", "x_mapmixed": "<<<1 => 2, 'a' => 3>>>",
     "x_sbig": "'1' * 5000",
+    "x_ihuge": "1" + "0" * 400,          # an int beyond the range of a decimal
 }
 EXTRA_TAGS = sorted(EXTRA_SRC)
 
@@ -405,7 +406,7 @@ def make_sandbox():
 
 def scaled_job(job):
     kind, what, tags = job
-    return (kind, what, tuple("scaled-big" if t == "big" else t for t in tags))
+    return (kind, what, tuple("scaled-big" if t in ("big", "x_ihuge") else t for t in tags))
 
 
 class Sweep:
@@ -448,7 +449,7 @@ class Sweep:
             res.extend({"out": o, "detail": d, "caught": c, "scaled": ""} for o, d, c in r)
         self.evaluations += len(jobs) + sum(1 for r in res if r["caught"])
         slow = [i for i, r in enumerate(res) if r["out"] in ("timeout", "host:MemoryError")]
-        big = [i for i in slow if "big" in jobs[i][2]]
+        big = [i for i in slow if "big" in jobs[i][2] or "x_ihuge" in jobs[i][2]]
         for i, (out, detail) in zip(big, self._alone([scaled_job(jobs[i]) for i in big])):
             if out in ("value", "error:ok"):
                 res[i]["scaled"] = out
